@@ -206,7 +206,7 @@ fn is_slash(ch: &char) -> bool {
 }
 
 fn is_tz_leading_char(ch: &char) -> bool {
-    ch.is_alphabetic() || *ch == '.' || *ch == '_'
+    ch.is_ascii_alphabetic() || *ch == '.' || *ch == '_'
 }
 
 fn is_tz_char(ch: &char) -> bool {
